@@ -766,6 +766,7 @@ class Machine:
 
     # ---- the run loop for one state
     def _run_state(self, st, work):
+        self._work = work
         while True:
             self.steps += 1
             if self.steps > self.max_steps:
@@ -1183,6 +1184,36 @@ class Machine:
                 return None
         elif name == "<I as std::iter::IntoIterator>::into_iter" and len(args) == 1:
             return args[0]
+        # ---- any / all over a short concrete list of booleans with an identity-like closure: decided element by element, forking on each symbolic one
+        if re.search(r"Iterator>?::(?:any|all)$", name) and len(args) == 2 and self.concrete_iter and getattr(self, "_work", None) is not None:
+            els = self._elements(strip_ref(args[0]))
+            clo = strip_ref(args[1])
+            if els is not None and len(els) <= 16 and isinstance(clo, Agg) and clo.kind == "closure" and clo.label in self.bodies and t.get("target") is not None:
+                from . import local as _local
+                r = _local.peel(_local.Defs(self.bodies[clo.label]).local(0))
+                while r[0] in ("deref", "ref"):
+                    r = _local.peel(r[1])
+                if r == ("param", 2):
+                    want = name.endswith("any")
+                    frame_index = len(st.frames) - 1
+                    for e in els:
+                        v = self.resolve(st, strip_ref(e))
+                        if isinstance(v, Const):
+                            if bool(v.v) == want:
+                                return Const(want)
+                            continue
+                        if is_top(v) or v is None:
+                            return None
+                        s2 = st.fork()
+                        s2.facts[v.key()] = Const(want)
+                        s2.label.append((show(v), show(Const(want))))
+                        f2 = s2.frames[frame_index]
+                        self.assign(s2, f2, t["dest"], Const(want))
+                        self._goto(f2, t["target"])
+                        self._work.append(s2)
+                        st.facts[v.key()] = Const(not want)
+                        st.label.append((show(v), show(Const(not want))))
+                    return Const(not want)
         # ---- Option / String models
         if name.startswith("std::option::Option::<T>::") and args:
             meth = name.rsplit("::", 1)[1]
@@ -1235,6 +1266,14 @@ class Machine:
                 tgt.cell.val = Tmpl(read_loc(tgt.cell, tgt.path).parts + to_tmpl(args[1]).parts)
                 return Unit()
             return None
+        if re.search(r"^std::ops::Range(?:Inclusive)?::<Idx>::contains$", name) and len(args) == 2:
+            rg, x = strip_ref(args[0]), strip_ref(args[1])
+            if isinstance(rg, Call) and rg.callee.endswith("RangeInclusive::<Idx>::new") and len(rg.args) == 2:
+                rg = Agg("adt", "std::ops::RangeInclusive", 0, list(rg.args))
+            if isinstance(rg, Agg) and rg.kind == "adt" and len(rg.fields) >= 2 and isinstance(x, Const) and isinstance(x.v, int) \
+                    and all(isinstance(f, Const) and isinstance(f.v, int) for f in rg.fields[:2]):
+                lo, hi = rg.fields[0].v, rg.fields[1].v
+                return Const(lo <= x.v <= hi if "Inclusive" in name else lo <= x.v < hi)
         # ---- exact, version-independent char predicates on constant characters
         if name.startswith("std::char::methods::<impl char>::") and args:
             cv = strip_ref(args[0])
